@@ -39,7 +39,7 @@ func init() {
 	register(&PropDef{
 		ID:    "C14",
 		Level: "fault_enumeration",
-		Rule: "for every corpus document: member-level transport faults at every JSON pointer (member lost, nulled, retyped, duplicated, array element lost/duplicated, leaf altered, unknown currency/country/regime/addon/schema codes, empty/null/garbage signature entries, header without digest) and byte-level stream faults (torn EOF, read error, stall until the context is cancelled, cancellation before the read, bit flips, chunking) through gobl.Parse, json.Unmarshal, c14n and the cli functions Build/Validate/Verify/Sign/Correct/Replicate over simulated readers; whatever parses is calculated, validated, digested, signed, verified, corrected and replicated; plus amplification inputs (nesting depth 100 / 10 000 / 100 000, 1 MiB digit strings) executed in child processes; check 'bulk' interleaves malformed and well-formed requests on scheduler-controlled bulk streams; " +
+		Rule: "for every corpus document, as a calculated envelope and (check sources) as the source its author wrote: member-level transport faults at every JSON pointer (member lost, nulled, retyped, duplicated, array element lost/duplicated, leaf altered, unknown currency/country/regime/addon/schema codes, empty/null/garbage signature entries, header without digest) and byte-level stream faults (torn EOF, read error, stall until the context is cancelled, cancellation before the read, bit flips, chunking) through gobl.Parse, json.Unmarshal, c14n and the cli functions Build/Validate/Verify/Sign/Correct/Replicate over simulated readers; whatever parses is calculated, validated, digested, signed, verified, corrected and replicated; plus amplification inputs (nesting depth 100 / 10 000 / 100 000, 1 MiB digit strings) executed in child processes; check 'bulk' interleaves malformed and well-formed requests on scheduler-controlled bulk streams; " +
 			"a case is (document, fault kind, pointer/offset, entry point); thorough enumerates all pointers, quick a seeded sample of pointer blocks",
 		Assumptions: []string{
 			"the arbitrary-bytes input space is covered only as far as these fault operators generate it from real documents (that is fuzzing's ground)",
